@@ -421,21 +421,50 @@ def shard(ctx):
     run()
     if ctx.shard == 0:
         # named cases that cannot be injected into a spec
-        from py_gql import schema as S
-        from py_gql.exc import SchemaError
+        for name in NAMED:
+            for sig, d in check_named(name):
+                ctx.violation(sig, d, {"named": name})
+            ctx.case(key=("named", name), nontrivial=True)
+            ctx.event("named:" + ("missing-query-root" if name == "missing-query-root" else "root-type-combination"))
+
+
+_ROOTS = [("None", "I", "None"), ("None", "None", "E"), ("None", "I", "E"), ("None", "O", "I"), ("O", "I", "E"), ("O", "E", "None")]
+NAMED = ["missing-query-root"] + ["roots:%s/%s/%s" % r for r in _ROOTS]
+
+
+def check_named(name):
+    """schemas that cannot be produced by injecting into a spec (the spec format needs a query type)"""
+    from py_gql import schema as S
+    from py_gql.exc import SchemaError
+    if name == "missing-query-root":
         try:
             S.Schema(query_type=None, types=[S.ObjectType("A", [S.Field("a", S.Int)])]).validate()
-            ctx.violation("C13/accepts-invalid-schema/missing-query-root", "Schema(query_type=None) validated", {"named": "missing-query-root"})
+            return [("C13/accepts-invalid-schema/missing-query-root", "Schema(query_type=None) validated")]
         except SchemaError:
-            pass
+            return []
         except Exception as e:  # noqa
-            ctx.violation("C13/invalid-schema-raises-foreign-exception/%s" % type(e).__name__, repr(e), {"named": "missing-query-root"})
-        ctx.event("named:missing-query-root")
+            return [("C13/invalid-schema-raises-foreign-exception/%s" % type(e).__name__, repr(e))]
+    # a missing query type together with non-object mutation / subscription types: all reported at once
+    mk = {"None": lambda: None, "I": lambda: S.InterfaceType("I", [S.Field("a", S.Int)]), "E": lambda: S.EnumType("E", ["A"]),
+          "O": lambda: S.ObjectType("O", [S.Field("a", S.Int)])}
+    qn, mn, sn = name.split(":")[1].split("/")
+    want = (["Query"] if qn == "None" else []) + (["Mutation"] if mn in ("I", "E") else []) + (["Subscription"] if sn in ("I", "E") else [])
+    try:
+        S.Schema(query_type=mk[qn](), mutation_type=mk[mn](), subscription_type=mk[sn]()).validate()
+        return [("C13/accepts-invalid-schema/root-types", name)]
+    except SchemaError as e:
+        msgs = [str(x) for x in getattr(e, "errors", [e])]
+        missing = [w for w in want if not any(w in x for x in msgs)]
+        if missing:
+            return [("C13/not-all-violations-reported/root-types", "%s: no error mentions %r; errors=%r" % (name, missing, msgs))]
+        return []
+    except Exception as e:  # noqa
+        return [("C13/invalid-schema-raises-foreign-exception/%s" % type(e).__name__, repr(e))]
 
 
 def replay(case):
     if case.get("named"):
-        return []
+        return check_named(case["named"])
     if case.get("injected"):
         case["injected"]["items"] = [tuple(i) for i in case["injected"]["items"]]
     if case.get("history"):
